@@ -118,8 +118,9 @@ class LoaderMonitor(Monitor):
         if a or data is None:
             out_of_domain(mon, "signature")
             return None
-        if kw.pop("strict", True) is not True:
-            out_of_domain(mon, "non-strict")
+        strict = kw.pop("strict", True)
+        if strict not in (True, False):
+            out_of_domain(mon, "strict-flag")
             return None
         delimiter = kw.pop("delimiter", ":")
         if kw or not isinstance(delimiter, str):
@@ -132,7 +133,7 @@ class LoaderMonitor(Monitor):
             except Exception:  # noqa: BLE001
                 out_of_domain(mon, "not-rdflib")
                 return None
-            return {"recs": [spec.Rec(p, u, (), (), None) for p, u in pm.items()], "source": "rdflib", "input": pm}
+            return {"recs": [spec.Rec(p, u, (), (), None) for p, u in pm.items()], "source": "rdflib", "input": pm, "strict": strict, "delimiter": delimiter}
         if isinstance(data, (str, Path)):
             if isinstance(data, str) and _is_url(data):
                 out_of_domain(mon, "url")
@@ -155,7 +156,40 @@ class LoaderMonitor(Monitor):
         if recs is None:
             out_of_domain(mon, "outside-format")
             return None
-        return {"recs": recs, "source": source, "input": obj}
+        return {"recs": recs, "source": source, "input": obj, "strict": strict, "delimiter": delimiter}
+
+    def _non_strict(self, fn, ctx, outcome, w):
+        """strict=False: whatever the loader makes of clashing input, the pairs it lists whose strings are claimed by
+        one record only still expand and compress as the input dictates."""
+        mon = f"{self.name}:{fn}"
+        kind, val = outcome
+        recs, d = ctx["recs"], ctx["delimiter"]
+        if kind == "raise":
+            return  # not promised either way
+        claims_p = collections.Counter(p for r in recs for p in set(spec.all_p(r)))
+        claims_u = collections.Counter(u for r in recs for u in set(spec.all_u(r)))
+        evaluated("loader-non-strict")
+        for r in recs:
+            for p in spec.all_p(r):
+                if claims_p[p] != 1 or claims_p[r.prefix] != 1 or d in p:
+                    continue
+                got = outcome_of(val.expand, p + d + "1")
+                if got != ("ret", r.uri_prefix + "1"):
+                    violation(["C13"], mon, "non-strict-load:listed-prefix-does-not-expand-as-dictated", prefix=p, expected=r.uri_prefix + "1", observed=got,
+                              denoted=dicts(recs), **w)
+                    return
+            for u in spec.all_u(r):
+                q = u + "1"
+                matches = [(x, o) for o in recs for x in spec.all_u(o) if q.startswith(x)]
+                longest = max(len(x) for x, _ in matches)
+                top = {x for x, _ in matches if len(x) == longest}
+                if top != {u} or claims_u[u] != 1:
+                    continue
+                got = outcome_of(val.compress, q)
+                if got != ("ret", r.prefix + d + "1"):
+                    violation(["C13"], mon, "non-strict-load:listed-uri-prefix-does-not-compress-as-dictated", uri=q, expected=r.prefix + d + "1", observed=got,
+                              denoted=dicts(recs), **w)
+                    return
 
     def post(self, fn, ctx, outcome, args, kwargs):
         mon = f"{self.name}:{fn}"
@@ -176,14 +210,23 @@ class LoaderMonitor(Monitor):
                 violation(["C04"], "loader-self-synonym", "loader-accepts-record-listing-its-own-canonical-value-as-synonym",
                           denoted=dicts(recs), observed=val if kind == "raise" else dicts(spec.snapshot(val)), **w)
             return
+        evaluated("loader-succeeds-iff-clash-free")
+        if ctx["strict"]:
+            evaluated("prop:C04")
         if kind == "raise":
             if valid:
-                violation(["C13"], mon, "loader-rejects-valid-input", observed=val, denoted=dicts(recs), **w)
+                # C13: the loader does not behave as its input dictates; C04: construction through a loader must succeed
+                # when no string is claimed twice
+                violation(["C13", "C04"], mon, "loader-rejects-valid-input", observed=val, denoted=dicts(recs), options={"strict": ctx["strict"], "delimiter": ctx["delimiter"]}, **w)
             return
         got = spec.snapshot(val)
         w["result"] = dicts(got)
         if not valid:
-            return  # C04's monitor on Converter.__init__ decides this one
+            if ctx["strict"] is False:
+                self._non_strict(fn, ctx, outcome, w)
+            else:
+                violation(["C04"], mon, "loader-accepts-clashing-input-in-strict-mode", denoted=dicts(recs), **w)
+            return
         if fn == "from_reverse_prefix_map":
             by = {r.prefix: r for r in got}
             for r in recs:
